@@ -372,3 +372,90 @@ def finish(prop, level, results, mc, t0, rule, assumptions, extra_cov=None, extr
         if nviol == 0:
             sys.exit(2)
     sys.exit(1 if nviol else 0)
+
+
+# ------------------------------------------------------------------------------------------------
+# C19: the same programs through two builds, events zipped and compared by TLC (TraceFeature)
+
+_STRIP_ENTRY = ("fn", "sfn")
+
+
+def _strip(ev):
+    keep = {}
+    for k in ("op", "a", "r", "sv", "dg", "nw", "calls", "tail", "beyond"):
+        if k in ev:
+            keep[k] = ev[k]
+    r = keep.get("r")
+    if isinstance(r, dict):
+        r = dict(r)
+        r.pop("labels", None)
+        r.pop("msg", None)
+        if isinstance(r.get("ents"), list):
+            r["ents"] = [{k: v for k, v in x.items() if k not in _STRIP_ENTRY} for x in r["ents"]]
+        keep["r"] = r
+    if isinstance(keep.get("sv"), list):
+        keep["sv"] = [{k: v for k, v in x.items() if k not in _STRIP_ENTRY} for x in keep["sv"]]
+    return keep
+
+
+def feature_pairs(name, programs, workdir, other):
+    os.makedirs(workdir, exist_ok=True)
+    bin_a = build("ref")
+    bin_b = build(other)
+    res = CampaignResult()
+    res.programs = len(programs)
+    for p in programs:
+        res.progs[str(p["id"])] = p
+    shards = shard(programs, max(1, min(12, len(programs) // 8 + 1)))
+    files = []
+    for k, sh in enumerate(shards):
+        pf = os.path.join(workdir, "%s-p%02d.ndjson" % (name, k))
+        with open(pf, "w") as f:
+            for p in sh:
+                f.write(json.dumps(p, separators=(",", ":")) + "\n")
+        files.append((k, pf, os.path.join(workdir, "%s-a%02d.ndjson" % (name, k)), os.path.join(workdir, "%s-b%02d.ndjson" % (name, k)),
+                      os.path.join(workdir, "%s-z%02d.ndjson" % (name, k))))
+    t0 = time.time()
+
+    def run_both(f):
+        run_harness(bin_a, f[1], f[2])
+        run_harness(bin_b, f[1], f[3])
+        n = 0
+        with open(f[2]) as fa, open(f[3]) as fb, open(f[4], "w") as fz:
+            la, lb = fa.readlines(), fb.readlines()
+            for i in range(max(len(la), len(lb))):
+                ea = json.loads(la[i]) if i < len(la) else {"op": "missing", "pid": "?", "i": i}
+                eb = json.loads(lb[i]) if i < len(lb) else {"op": "missing", "pid": "?", "i": i}
+                z = {"op": "pair", "pid": ea.get("pid", eb.get("pid")), "i": ea.get("i", i), "other": other, "a": _strip(ea), "b": _strip(eb)}
+                fz.write(json.dumps(z, separators=(",", ":")) + "\n")
+                n += 1
+                if len(res.samples) < 3 and ea.get("op") in ("create_file", "rename", "list"):
+                    res.samples.append({"pid": z["pid"], "i": z["i"], "op": ea.get("op"), "a_r": _trim(ea.get("r")), "b_r": _trim(eb.get("r")), "dg_a": ea.get("dg"), "dg_b": eb.get("dg")})
+                res.shapes.add((ea.get("op"), (ea.get("r") or {}).get("k"), (ea.get("r") or {}).get("e")))
+        for x in (f[2], f[3]):
+            os.remove(x)
+        return n
+
+    with ThreadPoolExecutor(max_workers=min(len(files), max(1, NCPU - 2))) as ex:
+        counts = list(ex.map(run_both, files))
+    res.wall_harness = time.time() - t0
+    res.events = sum(counts)
+    t0 = time.time()
+
+    def one(f):
+        return run_tlc(os.path.join(SPEC, "TraceFeature.tla"), os.path.join(SPEC, "TraceFeature.cfg"), {"TRACE": f[4]}, workdir, "%s-%02d" % (name, f[0]))
+
+    with ThreadPoolExecutor(max_workers=min(len(files), 8)) as ex:
+        outs = list(ex.map(one, files))
+    res.wall_tlc = time.time() - t0
+    for f, o in zip(files, outs):
+        res.bytes += os.path.getsize(f[4])
+        res.tlc_states += o["states"]
+        res.tlc_distinct += o["distinct"]
+        if not o["ok"]:
+            res.tool_errors.append("TLC did not accept/finish shard %s of %s" % (f[0], name))
+        for kind, fl in o["lines"]:
+            if kind == "VIOL":
+                res.viol.append(tuple(fl))
+        os.remove(f[4])
+    return res
